@@ -152,4 +152,10 @@ theorem padHex_lower (w v : Nat) : ∀ c ∈ padHex w v, IsLowerHex c := by
   · left; decide
   · exact hexMin_lower v c hc
 
+/-- the model's `make` at the regenerated parameters, without the reductions that do nothing in range -/
+theorem make_params_eq {s i : Nat} (hs : s < 256) (hi : i < 65536) : make params s i = s * 65536 ||| i := by
+  have h5 : (s * 65536 ||| i) < 2 ^ 32 := Nat.or_lt_two_pow (by omega) (by omega)
+  simp [make, params, Gen.C20.nodeServiceShift, Nat.shiftLeft_eq, Nat.mod_eq_of_lt hs, Nat.mod_eq_of_lt hi]
+  omega
+
 end Fatchoy.C20
